@@ -70,7 +70,7 @@ def generate(rng, tier):
     # recursion depth: valid documents of recursive known-size masters nested N deep, with and without that master (or the root) buffered,
     # run on a thread with the stack of a default main thread (K command)
     rs = E.rec_spec()
-    for depth, buffered in ([(300, (0x4301,)), (2000, ()), (20000, ()), (3000, (0x4301,)), (20000, (0x4301,)), (40000, (0x81,))] if thorough
+    for depth, buffered in ([(300, (0x4301,)), (2000, ()), (20000, ()), (3000, (0x4301,)), (20000, (0x4301,)), (8000, (0x81,))] if thorough
                             else [(300, (0x4301,)), (20000, ()), (20000, (0x4301,))]):
         body = b""
         for _ in range(depth):
